@@ -513,4 +513,45 @@ def miObjWrapperCall (rnd : Rat → Rat) (rows : List SizeRow) (objN N T : Nat) 
     | _, _ => none
   miObjCall rows objN N T nb zdiv sc' (mn.map rnd) (a.map fun row => row.map fun x => x.map rnd)
 
+/-! ### the histogram range as an argument (round 4)
+
+`tmiKernelVerdict mn mx` is the part of `tmiCall` after the wrapper has computed `range_min = mn`,
+`range_max = mx` (shapes equal, `n_bins` valid, arrays non-empty). -/
+def tmiKernelVerdict (mn mx : Option Rat) (N T : Nat) (nb : Int) (dO dS : Data) : Verdict :=
+  match mn, mx with
+  | some a, some b =>
+      if b - a = 0 then .raise
+      else
+        let s : Option Rat := some (1 / (b - a))
+        if castsOK 32 N T s mn nb dO.at && castsOK 32 N T s mn nb dS.at then
+          verdictOf (tmiSizes N T N T nb.toNat)
+            (tmiTrace N T nb.toNat (fun i k => symbol s mn nb (dO.at i k))
+                                   (fun i k => symbol s mn nb (dS.at i k)))
+        else .oob
+  | _, _ =>
+      verdictOf (tmiSizes N T N T nb.toNat)
+        (tmiTrace N T nb.toNat (fun _ _ => nb - 1) (fun _ _ => nb - 1))
+
+/-- `np.min((x, y))` / `np.max((x, y))` of two floats: NaN if one of them is -/
+def npMin2 (x y : Option Rat) : Option Rat :=
+  match x, y with
+  | some a, some b => some (if b < a then b else a)
+  | _, _ => none
+def npMax2 (x y : Option Rat) : Option Rat :=
+  match x, y with
+  | some a, some b => some (if a < b then b else a)
+  | _, _ => none
+
+/-- one term of the range as the generated tables name it: (array, "min" | "max") -/
+def rangeTerm (dO dS : Data) (t : String × String) : Option Rat :=
+  let a := if t.1 == "original_data" then dO.flat else dS.flat
+  if t.2 == "min" then optMin a else optMax a
+
+/-- the range the wrapper computes from the listed terms (`np.min((t0, t1))`, `np.max((u0, u1))`) -/
+def rangeFrom (dO dS : Data) (mins maxs : List (String × String)) : Option Rat × Option Rat :=
+  match mins, maxs with
+  | [t0, t1], [u0, u1] => (npMin2 (rangeTerm dO dS t0) (rangeTerm dO dS t1),
+                           npMax2 (rangeTerm dO dS u0) (rangeTerm dO dS u1))
+  | _, _ => (none, none)
+
 end Pyunicorn.Access
